@@ -40,6 +40,7 @@ func c14Run(u *vfUnit) {
 	r := u.Rng
 	kind := vfKind(u.Index % 2)
 	alloc := (u.Index/2)%2 == 1
+	roHandles := 0 // read-only handles with a failing read so far in this unit (selects the failure value)
 	for bi := 0; bi < 6; bi++ {
 		nh := []int{1, 2, 3, 8, 1, 4}[(bi+u.Index)%6]
 		k := []int{1, 3, 8, 20, 64, 33}[(bi+u.Index/4)%6]
@@ -118,6 +119,11 @@ func c14Run(u *vfUnit) {
 			return
 		}
 		// phase 1: open the handles
+		readOnly := kind == vfRS && (bi == 3 || bi == 5)
+		if readOnly {
+			label += "/read-only-handles"
+			u.Count("bursts_on_read_only_handles", 1)
+		}
 		var opens []vfPkt
 		id := uint32(100)
 		paths := make([]string, nh)
@@ -128,6 +134,12 @@ func c14Run(u *vfUnit) {
 				p = filepath.Join(dir, fmt.Sprintf("f%d", h))
 			}
 			paths[h] = p
+			if readOnly {
+				// read-only handles on existing files (the request server's reader objects)
+				store.Put(p, vfPattern(uint64(h*1000), 0, k*48))
+				opens = append(opens, vfPkt{Type: rfOpen, ID: id, Path: p, Pflags: rfRead_})
+				continue
+			}
 			opens = append(opens, vfPkt{Type: rfOpen, ID: id, Path: p, Pflags: rfRead_ | rfWrite_ | rfCreat_})
 		}
 		hresp, err := rs.R.Phase(120*time.Second, opens...)
@@ -163,7 +175,7 @@ func c14Run(u *vfUnit) {
 		// other requests succeed and Close runs after all of them, exactly once.
 		failW := map[int]int{}
 		failID := map[uint32]bool{}
-		if kind == vfRS && bi%4 == 1 && k > 1 {
+		if kind == vfRS && bi%4 == 1 && k > 1 && !readOnly {
 			failOff := map[string]int64{}
 			for h := 0; h < nh; h++ {
 				failW[h] = r.Intn(k)
@@ -178,11 +190,35 @@ func c14Run(u *vfUnit) {
 			label += "/one-failing-write-per-handle"
 			u.Count("bursts_with_failing_writes", 1)
 		}
+		if readOnly && k > 1 {
+			// one read per handle fails in the handler object, with a value from the pool of failure values (I/O error,
+			// stale handle, interrupted, end-of-file inside another error, ...): that read is answered with an error, the
+			// other reads are served and the object is closed after all of them, once, by the CLOSE
+			failOff := map[string]int64{}
+			failErr := map[string]error{}
+			for h := 0; h < nh; h++ {
+				failW[h] = r.Intn(k)
+				failOff[paths[h]] = int64(failW[h] * chunk)
+				failErr[paths[h]] = vfFaultErr((u.Index/2)*4 + roHandles)
+				roHandles++
+			}
+			store.FailAt = func(path string, off int64, n int, write bool) error {
+				if o, ok := failOff[path]; ok && !write && off == o {
+					return failErr[path]
+				}
+				return nil
+			}
+			label += fmt.Sprintf("/one-failing-read-per-handle(%v...)", failErr[paths[0]])
+		}
 		for h := 0; h < nh; h++ {
 			for w := 0; w < k; w++ {
 				id++
 				if fw, ok := failW[h]; ok && fw == w {
 					failID[id] = true
+				}
+				if readOnly {
+					perHandle[h] = append(perHandle[h], vfPkt{Type: rfRead, ID: id, Handle: handles[h], Off: uint64(w * chunk), Len: chunk})
+					continue
 				}
 				perHandle[h] = append(perHandle[h], vfPkt{Type: rfWrite, ID: id, Handle: handles[h], Off: uint64(w * chunk), Data: vfPattern(uint64(h*1000+w+1), int64(w*chunk), chunk)})
 				// (without OpenFileWriter the request server turns a READ|WRITE open into a write-only handle)
@@ -293,6 +329,12 @@ func c14Run(u *vfUnit) {
 				}
 			case rfRead:
 				ok = p.Type == rfData || (p.Type == rfStatus && p.Code == rfEOF)
+				if readOnly {
+					ok = p.Type == rfData && len(p.Data) == chunk
+					if failID[req.ID] {
+						ok = p.Type == rfStatus && p.Code != rfOK
+					}
+				}
 			case rfFstat:
 				ok = p.Type == rfAttrs
 			}
@@ -307,7 +349,7 @@ func c14Run(u *vfUnit) {
 			}
 		}
 		// final content: every write present
-		for h := 0; h < nh; h++ {
+		for h := 0; h < nh && !readOnly; h++ {
 			var got []byte
 			if kind == vfOS {
 				got, _ = os.ReadFile(paths[h])
